@@ -108,6 +108,12 @@ def cases(tier, seed):
     n = 600 if tier == 'quick' else 12000
     for i in range(n):
         yield {'k': 'sat', 'i': i}
+    # words of 53..63 bits (reachable as results of operations on core-domain operands): float arrays saturating at limits
+    # that are not exact in float64
+    for w in range(53, 64):
+        for s in (True, False):
+            for j in range(3 if tier == 'quick' else 40):
+                yield {'k': 'satwide', 'n_word': w, 'signed': s, 'i': j}
 
 
 def _try(f):
@@ -125,6 +131,24 @@ def run_case(case, ctx):
     fm = ctx.mon.fxpmath
     rng = ctx.rng_for(case['k'], case['i'])
     i = case['i']
+    if case['k'] == 'satwide':
+        w, s = case['n_word'], case['signed']
+        nf = rng.choice([0, 0, 1, w // 2, w])
+        lo, hi = R.code_range(s, w)
+        top = float(F(hi) / F(2) ** nf)
+        inr = [float(F(rng.randint(lo // 4, hi // 4)) / F(2) ** nf) for _ in range(2)]
+        outs = [top * rng.choice([1.0, 1.5, 4.0]), top * 2.0 ** rng.randint(1, 9), (float(F(lo) / F(2) ** nf) * rng.choice([1.0, 2.0, 64.0]) if s else -1.0)]
+        r = G.ROUNDINGS[i % 5]
+        for arr in ([inr[0], outs[0]], [inr[1], outs[1], outs[2]], [outs[0]], [inr[0], inr[1]]):
+            _try(lambda: Fxp(np.array(arr), s, w, nf, rounding=r))
+            _try(lambda: Fxp(list(arr), s, w, nf, rounding=r))
+            y = Fxp(None, s, w, nf, rounding=r)
+            _try(lambda: y.set_val(np.array(arr)))
+            z = Fxp(np.zeros(len(arr) + 1), s, w, nf, rounding=r)
+            _try(lambda: z.__setitem__(slice(0, len(arr)), arr))
+        for v in outs:
+            _try(lambda: Fxp(v, s, w, nf, rounding=r))
+        return
     if case['k'] == 'sat':
         s, w, nf = G.core_format(rng)
         nf = abs(nf) % (w + 9)
@@ -222,8 +246,11 @@ def run_case(case, ctx):
                 _try(lambda: x.resize(signed=not x.signed))          # one size at a time
             elif q < 0.9:
                 _try(lambda: x.resize(n_frac=fd[2]))
-            else:
+            elif q < 0.95:
                 _try(lambda: x.resize(fd[0], n_frac=fd[2], n_int=max(0, fd[1] - fd[2] - (1 if fd[0] else 0))))
+            else:
+                # the raw value is kept: it still has to end inside the new word
+                _try(lambda: x.resize(fd[0], max(1, x.n_word - rng.randint(1, 6)), restore_val=False))
         elif c == 'like':
             keep(_try(lambda: x.like(y)))
             keep(_try(lambda: Fxp(x, like=y)))
